@@ -11,7 +11,7 @@ from props.C06 import describe, rules
 
 REQUIRED_THEOREMS = ['Usid.C12.cell_exact', 'Usid.C12.group_sizes', 'Usid.C12.reduced_anc_all_removed',
                      'Usid.C12.reduced_anc_keeps_labels', 'Usid.C12.memory_rejects', 'Usid.C12.file_form',
-                     'Usid.C12.file_form_pos_reduced', 'Usid.C12.file_form_spec_reduced']
+                     'Usid.C12.file_form_pos_reduced', 'Usid.C12.file_form_spec_reduced', 'Usid.C12.file_cells_exact']
 RULE = ('[also: main dtypes f8/f4/i4, dims as list / tuple / bare string, dset_name, a repeated to_hdf5 call; units, quantity, placeholder side and the array returned by the to_hdf5 call observed] generator datasets (1-3 dimensions per side, sizes 1-4, any storage order, integer-valued data; a quarter with a '
         'dimension whose reference values are NOT distinct - elements are identified by their indices, values checked separately) x non-empty subsets '
         'of their dimensions (thorough: EVERY non-empty subset) x {mean, sum, max, min, std} x the wrapper\'s view (file order, '
